@@ -17,10 +17,20 @@ type Party struct {
 	ID  *ids.Identity
 	Cfg *config.Config
 	St  *state.State
+	// Gate, if set, sees every call the state manager makes to the instance
+	// and to the storage (schedule points, see Gate).
+	Gate *Gate
 }
 
-func (p *Party) Identity() *m.Address   { return p.ID.Addr }
-func (p *Party) Config() *config.Config { return p.Cfg }
+func (p *Party) Identity() *m.Address   { p.Gate.Pass("instance.Identity"); return p.ID.Addr }
+func (p *Party) Config() *config.Config { p.Gate.Pass("instance.Config"); return p.Cfg }
+
+// NewGatedParty creates a party whose instance and storage calls pass through a gate.
+func NewGatedParty(id *ids.Identity) *Party {
+	p := &Party{ID: id, Cfg: config.MakeTestConfig(config.Store{}), Gate: &Gate{}}
+	p.St = state.New(p, &GateStorage{Storage: storage.NewMemStorage(), G: p.Gate})
+	return p
+}
 
 // NewParty creates a party.
 func NewParty(id *ids.Identity) *Party {
